@@ -355,7 +355,7 @@ REQUIRED_PROBES = {
             "fault_fired_sys_open", "fault_fired_sys_mmap"],
     "C06": ["sysfault_rules_fired", "prior_busy", "prior_ff-longer", "prior_aa-exact", "class_tls",
             "class_dyn", "class_script", "class_big", "class_str", "class_graph"],
-    "C19": ["prior_busy", "probe_busy_output_relinked", "pairs_interleaved", "same_output_pairs",
+    "C19": ["prior_busy", "prior_symlink", "probe_busy_output_relinked", "pairs_interleaved", "same_output_pairs",
             "mode_split", "mode_atomic"],
     "C03": ["probe_take_lost", "big_object_classes", "activations"],
     "C40": ["probe_reserve_cas_lost", "probe_reserve_low", "probe_bucket_parked",
